@@ -5,8 +5,12 @@
 //!   C18 ipcs <sr|srb|sd> <spec> <legacy> <eos> <kind:metaLen:bodyLen,…> <k>   model: batches=<n> end=eos|err
 //!   C18 ipcf <spec> <len> <k> <tail-hex>                                      model: reject | SKIP     impl: reject|accept
 //!   C18 sink <w<hex>;f;…> <sched>                                             model: <accepted-hex> ok|err   (std write_all/flush)
-//!   C18 wfault <sw|swb|fw|fwb|csv|json|jsona> <spec> <sched> <trace>          model: accepted=<n> res=ok|err
-//!   C18 rfault <sr|srb|fr|frb|csv|json> <spec> <E|I|S|A> <k> <n>              model: res=err | res=ok batches=<n> | SKIP
+//!   C18 wfault <writer> <spec> <sched> <trace>                                model: accepted=<n> res=ok|err
+//!       writers: sw swl swb swB swc (StreamWriter: raw, legacy, BufWriter(256), try_new_buffered, RecordBatchWriter trait)
+//!                fw fwl fwb fwB fwm fwc (FileWriter: + custom metadata), csv, json, jsona
+//!   C18 rfault <reader> <spec> <E|I|S|A> <k> <n>                              model: res=err | res=ok batches=<n> | SKIP
+//!       readers: sr srb fr frb frp (projection + set_index), csv csvb (build_buffered), json,
+//!                csvi (Format::infer_schema), jsoni (infer_json_schema)
 //!   C18 jsont <spec> <batch> <k> <json-hex>                                   model: rows=<n> end=eos|err
 //! Oracle checks (reported with `oracle_failure`, independent of the model): no panic, no
 //! hang; decoded batches of a truncated stream are the first batches written (==); sink content
@@ -237,13 +241,49 @@ fn read_ipc_file(data: Vec<u8>, buffered: bool) -> Result<Vec<RecordBatch>, Arro
     it.collect()
 }
 
+/// the low-level path: `read_footer_length` + `root_as_footer` + `FileDecoder` over one `Buffer`
+fn read_ipc_file_decoder(data: Vec<u8>) -> Result<Vec<RecordBatch>, ArrowError> {
+    use arrow_ipc::reader::{FileDecoder, read_footer_length};
+    let buffer = Buffer::from_vec(data);
+    if buffer.len() < 10 {
+        return Err(ArrowError::ParseError("too short for a trailer".into()));
+    }
+    let trailer_start = buffer.len() - 10;
+    let footer_len = read_footer_length(buffer[trailer_start..].try_into().unwrap())?;
+    if footer_len > trailer_start {
+        return Err(ArrowError::ParseError("footer length beyond the file".into()));
+    }
+    let footer = arrow_ipc::root_as_footer(&buffer[trailer_start - footer_len..trailer_start])
+        .map_err(|e| ArrowError::ParseError(format!("footer: {e:?}")))?;
+    let schema = arrow_ipc::convert::try_fb_to_schema(footer.schema().ok_or_else(|| ArrowError::ParseError("no schema".into()))?)?;
+    let mut decoder = FileDecoder::new(Arc::new(schema), footer.version());
+    let slice = |b: &arrow_ipc::Block| -> Result<Buffer, ArrowError> {
+        let (o, l) = (b.offset() as usize, b.metaDataLength() as usize + b.bodyLength() as usize);
+        if b.offset() < 0 || b.metaDataLength() < 0 || b.bodyLength() < 0 || o.checked_add(l).is_none_or(|e| e > buffer.len()) {
+            return Err(ArrowError::ParseError("block beyond the file".into()));
+        }
+        Ok(buffer.slice_with_length(o, l))
+    };
+    for b in footer.dictionaries().iter().flatten() {
+        decoder.read_dictionary(b, &slice(b)?)?;
+    }
+    let mut out = vec![];
+    for b in footer.recordBatches().iter().flatten() {
+        if let Some(x) = decoder.read_record_batch(b, &slice(b)?)? {
+            out.push(x);
+        }
+    }
+    Ok(out)
+}
+
 fn run_ipcf(t: &[&str], fails: &mut Fails) -> String {
     let (spec, len, k, tail) = (t[2], t[3].parse::<usize>().unwrap(), t[4].parse::<usize>().unwrap(), t[5]);
     let bytes = ipc_file(spec);
     if bytes.len() != len || k > len || hex(&bytes[k - k.min(10)..k]) != tail {
         return "bad-case".into();
     }
-    let r = read_ipc_file(bytes[..k].to_vec(), k % 2 == 1);
+    // three entry points to the same trailer: FileReader, buffered FileReader, FileDecoder
+    let r = if k % 3 == 2 { read_ipc_file_decoder(bytes[..k].to_vec()) } else { read_ipc_file(bytes[..k].to_vec(), k % 3 == 1) };
     if k == len {
         let inp = input(spec, true);
         match &r {
@@ -317,6 +357,36 @@ fn drive_writer(writer: &str, inp: &Input, spec: &str, sink: FaultSink, out: &mu
             ipc_opts(spec, false)
         )),
         "fw" => ipc!(FileWriter::try_new_with_options(sink.clone(), &inp.schema, ipc_opts(spec, false))),
+        // the 8 KiB `BufWriter` constructors
+        "swB" => ipc!(StreamWriter::try_new_buffered(sink.clone(), &inp.schema)),
+        "fwB" => ipc!(FileWriter::try_new_buffered(sink.clone(), &inp.schema)),
+        // legacy (V4, no continuation marker) file; custom metadata in the footer
+        "fwl" => ipc!(FileWriter::try_new_with_options(sink.clone(), &inp.schema, ipc_opts(spec, true))),
+        "fwm" => ipc!(FileWriter::try_new_with_options(sink.clone(), &inp.schema, ipc_opts(spec, false)).map(|mut w| {
+            w.write_metadata("k1", "PAR1");
+            w.write_metadata("ARROW1", "v");
+            w
+        })),
+        // through the `RecordBatchWriter` trait object-style API (`write` + consuming `close`)
+        "swc" | "fwc" => {
+            use arrow_array::RecordBatchWriter;
+            fn go<W: RecordBatchWriter>(mut w: W, inp: &Input) -> Result<(), ArrowError> {
+                for b in &inp.batches {
+                    RecordBatchWriter::write(&mut w, b)?;
+                }
+                w.close()
+            }
+            let res = if writer == "swc" {
+                StreamWriter::try_new_with_options(sink.clone(), &inp.schema, ipc_opts(spec, false)).and_then(|w| go(w, inp))
+            } else {
+                FileWriter::try_new_with_options(sink.clone(), &inp.schema, ipc_opts(spec, false)).and_then(|w| go(w, inp))
+            };
+            if res.is_err() {
+                out.accepted_at_error = Some(sink.data().len());
+            }
+            sink.mark_done();
+            res
+        }
         "fwb" => ipc!(FileWriter::try_new_with_options(
             BufWriter::with_capacity(256, sink.clone()),
             &inp.schema,
@@ -386,6 +456,8 @@ fn drive_writer(writer: &str, inp: &Input, spec: &str, sink: FaultSink, out: &mu
 
 fn writer_schemas(writer: &str) -> &'static [usize] {
     match writer {
+        // the legacy (V4) format cannot carry every type the generator makes
+        "fwl" => &[0, 1, 3, 5, 6],
         "csv" => &[0, 1, 5, 6],
         "json" | "jsona" => &[0, 1, 3, 5, 6],
         _ => &[0, 1, 2, 3, 4, 5, 6],
@@ -419,7 +491,7 @@ fn run_wfault(t: &[&str], fails: &mut Fails) -> String {
     // holding exactly the complete fault-free output
     if !out.later_ok.is_empty() && data != good {
         let family = match writer {
-            "sw" | "swl" | "swb" | "fw" | "fwb" => "ipc",
+            "sw" | "swl" | "swb" | "fw" | "fwb" | "swB" | "fwB" | "fwl" | "fwm" | "swc" | "fwc" => "ipc",
             _ => "json",
         };
         fails.push((
@@ -455,8 +527,8 @@ fn run_wfault(t: &[&str], fails: &mut Fails) -> String {
 fn readback(writer: &str, _spec: &str, inp: &Input, data: Vec<u8>) -> Option<String> {
     let want = arrow_select::concat::concat_batches(&inp.schema, &inp.batches).unwrap();
     let got: Result<Vec<RecordBatch>, ArrowError> = match writer {
-        "sw" | "swl" | "swb" => StreamReader::try_new(Cursor::new(data), None).and_then(|r| r.collect()),
-        "fw" | "fwb" => read_ipc_file(data, false),
+        "sw" | "swl" | "swb" | "swB" | "swc" => StreamReader::try_new(Cursor::new(data), None).and_then(|r| r.collect()),
+        "fw" | "fwb" | "fwB" | "fwl" | "fwm" | "fwc" => read_ipc_file(data, false),
         "csv" => {
             if inp.batches.is_empty() {
                 return if data.is_empty() { None } else { Some("csv output for no batches is not empty".into()) };
@@ -480,8 +552,8 @@ fn readback(writer: &str, _spec: &str, inp: &Input, data: Vec<u8>) -> Option<Str
 fn reader_bytes(reader: &str, spec: &str) -> Arc<Vec<u8>> {
     match reader {
         "sr" | "srb" => ipc_stream(spec, false, true),
-        "fr" | "frb" => ipc_file(spec),
-        "csv" => cached(format!("csv {spec}"), || fault_free("csv", spec).0),
+        "fr" | "frb" | "frp" => ipc_file(spec),
+        "csv" | "csvb" | "csvi" => cached(format!("csv {spec}"), || fault_free("csv", spec).0),
         _ => cached(format!("json {spec}"), || fault_free("json", spec).0),
     }
 }
@@ -489,6 +561,38 @@ fn reader_bytes(reader: &str, spec: &str) -> Arc<Vec<u8>> {
 fn read_with(reader: &str, spec: &str, data: Arc<Vec<u8>>, ctl: ReadCtl) -> (Vec<RecordBatch>, bool) {
     let src = FaultRead { inner: Cursor::new(data.as_ref().clone()), ctl };
     let inp = input(spec, reader.starts_with("fr"));
+    // schema inference reads the source too
+    if reader == "csvi" {
+        let r = arrow_csv::reader::Format::default().with_header(true).infer_schema(src, None);
+        return (vec![], r.is_ok());
+    }
+    if reader == "jsoni" {
+        let r = arrow_json::reader::infer_json_schema(BufReader::with_capacity(16, src), None);
+        return (vec![], r.is_ok());
+    }
+    if reader == "frp" {
+        // projection + random access: last batch first, then from the start
+        let r = (|| -> Result<Vec<RecordBatch>, ArrowError> {
+            let mut r = FileReader::try_new(src, Some(vec![0]))?;
+            let mut out = vec![];
+            let n = r.num_batches();
+            if n > 0 {
+                r.set_index(n - 1)?;
+                if let Some(b) = r.next() {
+                    out.push(b?);
+                }
+                r.set_index(0)?;
+            }
+            for b in r {
+                out.push(b?);
+            }
+            Ok(out)
+        })();
+        return match r {
+            Ok(b) => (b, true),
+            Err(_) => (vec![], false),
+        };
+    }
     let it: Result<Box<dyn Iterator<Item = Result<RecordBatch, ArrowError>>>, ArrowError> = match reader {
         "sr" => StreamReader::try_new(src, None).map(|r| Box::new(r) as _),
         "srb" => StreamReader::try_new_buffered(src, None).map(|r| Box::new(r) as _),
@@ -498,6 +602,11 @@ fn read_with(reader: &str, spec: &str, data: Arc<Vec<u8>>, ctl: ReadCtl) -> (Vec
             .with_header(true)
             .with_batch_size(3)
             .build(src)
+            .map(|r| Box::new(r) as _),
+        "csvb" => arrow_csv::ReaderBuilder::new(inp.schema.clone())
+            .with_header(true)
+            .with_batch_size(1024)
+            .build_buffered(BufReader::with_capacity(16, src))
             .map(|r| Box::new(r) as _),
         _ => arrow_json::ReaderBuilder::new(inp.schema.clone())
             .with_batch_size(3)
@@ -689,42 +798,73 @@ fn gen_sink(sink: &mut Sink, rng: &mut Rng) {
     emit(sink, line, &format!("op:sink {}", if n > 0 && m > 0 { "nt" } else { "" }));
 }
 
-const WRITERS: [&str; 8] = ["sw", "fw", "swl", "swb", "fwb", "csv", "json", "jsona"];
+const WRITERS: [&str; 14] = ["sw", "fw", "swl", "swb", "fwb", "csv", "json", "jsona", "swB", "fwB", "fwl", "fwm", "swc", "fwc"];
 
 /// `i`-th input: the writers are visited round-robin so that every writer is exercised in every run
 fn gen_wfault(sink: &mut Sink, rng: &mut Rng, i: usize) {
     let writer = WRITERS[i % WRITERS.len()];
-    let spec = format!("{}:{}", gen_spec(rng, writer_schemas(writer)), rng.pick(&[8usize, 64]));
+    // second round: outputs larger than the 8 KiB buffers (BufWriter, the csv crate's buffer, the
+    // JSON writer's flush threshold) for the writers that have one or write directly
+    let large = i >= WRITERS.len() && matches!(writer, "sw" | "fw" | "swB" | "fwB" | "csv" | "json" | "jsona");
+    let spec = if large {
+        format!("1:2:{}:{}:{}", 700 + rng.usize(600), rng.usize(100000), rng.pick(&[8usize, 64]))
+    } else {
+        format!("{}:{}", gen_spec(rng, writer_schemas(writer)), rng.pick(&[8usize, 64]))
+    };
     let (_, trace) = fault_free(writer, &spec);
-    for (sched, kind) in schedules_for(&trace) {
+    let scheds = if large { schedules_for_large(&trace) } else { schedules_for(&trace) };
+    for (sched, kind) in scheds {
         let line = format!("C18 wfault {writer} {spec} {sched} {}", show_list(&trace));
-        let tags = format!("op:wfault writer:{writer} fault:{kind} schema:{} nt", schema_name(spec_schema(&spec)));
+        let tags = format!(
+            "op:wfault writer:{writer} fault:{kind} schema:{} {} nt",
+            schema_name(spec_schema(&spec)),
+            if large { "size:large" } else { "size:small" }
+        );
         emit(sink, line, &tags);
     }
 }
 
-fn gen_rfault(sink: &mut Sink, rng: &mut Rng) {
-    let reader = *rng.pick(&["sr", "srb", "fr", "frb", "csv", "json"]);
+const READERS: [&str; 10] = ["sr", "fr", "csv", "json", "srb", "frb", "csvb", "frp", "csvi", "jsoni"];
+
+fn gen_rfault(sink: &mut Sink, rng: &mut Rng, i: usize) {
+    let reader = READERS[i % READERS.len()];
     let schemas: &[usize] = match reader {
-        "csv" => &[0, 1, 5, 6],
-        "json" => &[0, 1, 3, 5, 6],
+        "csv" | "csvb" | "csvi" => &[0, 1, 5, 6],
+        "json" | "jsoni" => &[0, 1, 3, 5, 6],
         _ => &[0, 1, 2, 3, 4, 5, 6],
     };
-    let spec = format!("{}:8", gen_spec(rng, schemas));
+    // second round: inputs larger than the readers' 8 KiB buffers
+    let large = i >= READERS.len();
+    let spec = if large {
+        format!("1:2:{}:{}:8", 700 + rng.usize(600), rng.usize(100000))
+    } else {
+        let mut s = gen_spec(rng, schemas);
+        if reader.ends_with('i') {
+            // inference needs at least one row
+            let f: Vec<&str> = s.split(':').collect();
+            s = format!("{}:{}:{}:{}", if f[0] == "6" { "0" } else { f[0] }, 1 + rng.usize(3), f[2], f[3]);
+        }
+        format!("{s}:8")
+    };
     let data = reader_bytes(reader, &spec);
     let ctl = ReadCtl::new('N', 0);
     let (good, ok) = read_with(reader, &spec, data, ctl.clone());
     assert!(ok, "fault-free read of {reader} {spec}");
     let calls = ctl.calls();
-    for k in 0..calls {
+    let size = if large { "size:large" } else { "size:small" };
+    // large inputs through unbuffered readers make thousands of calls: every call up to 200, then a stride
+    let ks: Vec<usize> = (0..calls).filter(|k| *k < 200 || k % (calls / 100 + 1) == 0 || *k + 3 >= calls).collect();
+    for k in ks {
         for mode in ["E", "I", "S"] {
             let line = format!("C18 rfault {reader} {spec} {mode} {k} {}", good.len());
-            let tags = format!("op:rfault reader:{reader} fault:{mode} schema:{} nt", schema_name(spec_schema(&spec)));
+            let tags = format!("op:rfault reader:{reader} fault:{mode} schema:{} {size} nt", schema_name(spec_schema(&spec)));
             emit(sink, line, &tags);
         }
     }
-    let line = format!("C18 rfault {reader} {spec} A 0 {}", good.len());
-    emit(sink, line, &format!("op:rfault reader:{reader} fault:A nt"));
+    if !large {
+        let line = format!("C18 rfault {reader} {spec} A 0 {}", good.len());
+        emit(sink, line, &format!("op:rfault reader:{reader} fault:A {size} nt"));
+    }
 }
 
 fn gen_jsont(sink: &mut Sink, rng: &mut Rng) {
@@ -765,8 +905,8 @@ fn main() {
         for i in 0..(n * 2).max(WRITERS.len() * 2) {
             gen_wfault(&mut sink, &mut rng, i);
         }
-        for _ in 0..n * 2 {
-            gen_rfault(&mut sink, &mut rng);
+        for i in 0..(n * 2).max(READERS.len() * 2) {
+            gen_rfault(&mut sink, &mut rng, i);
         }
         for _ in 0..n {
             gen_jsont(&mut sink, &mut rng);
